@@ -49,5 +49,15 @@ claim("C13", "rapid-prop",
       "Random op lists (aligned Attach over overlapping/abutting/nested ranges, misaligned Attach, reads, writes, EaDump at any alignment across memories and holes) run on a fresh Bus with recording stubs; every access must reach exactly the model's owner with the full address, unattached accesses must panic, rejected Attach must not change routing, EaDump must equal byte-wise reads and leave unattached positions and the canary untouched.",
       "Trusted: the interval model of ownership. Histories are bounded (25 ops quick, 60 thorough) and ranges lie around three anchors.",
       "DESIGN.md section 3 C13")
+claim("C01", "lockstep",
+      "model-based lockstep property test (rapid): both interpreters against an independent WDC 65C816 reference model, just-in-time edge-solving program synthesis",
+      "Generated native-mode programs (edge-biased state, all 256 opcodes x M x X hit >100 times per quick run, operands/pointers/index sums solved onto page, bank and 24-bit edges, width switches and block moves over-represented) run in lockstep on cpu65c816, cpualt and a reference model written from the WDC documentation; after every step the full architectural state and every written memory byte are compared. Sampling of a >2^100 state space: every opcode/width cell and boundary class is reached, a deviation confined to one magic operand value inside a class can be missed, and an error shared by the model and both interpreters is invisible.",
+      "Trusted: harness/wdc (opcode matrix + reference model, ~900 lines). Not judged: V after decimal arithmetic, A/N/Z/C after decimal arithmetic on non-BCD operands, results depending on bus-cycle order inside one instruction (program ends there), emulation mode.",
+      "DESIGN.md section 3 C01")
+claim("C02", "lockstep",
+      "differential stateful property test (rapid): cpu65c816 versus cpualt on identical raw state, memory and action sequence",
+      "State machines over the pair of interpreters loaded from the same raw register file (E=0/1, D=0/1, any widths, stale non-authoritative copies 30%) with actions step (JIT edge-solving synthesis, all opcodes), IRQ, NMI, Reset; after every action Step() results, Cycles, AllCycles, architectural view, flags, PPC/PRK, pending interrupt and memory must agree; exactly one interpreter panicking is a violation. No model is trusted here: the oracle is the other implementation.",
+      "Both interpreters wrong in the same way is invisible to this check (C01 covers native mode against a model).",
+      "DESIGN.md section 3 C02")
 for e in ENGINES:
     e["serves_properties"] = sorted(k for k, v in CLAIMED.items() if v["engine"] == e["name"])
